@@ -196,7 +196,12 @@ class BasicDBusProtocol(protocol.Protocol):
                         log.msg('DBus Authentication failed: ' + str(e))
                         self.transport.loseConnection()
             else:
-                if len(self._buffer) > self.MAX_AUTH_LENGTH:
+                # the unterminated rest of a line; a trailing CR that may be
+                # the first half of the delimiter is not part of the line
+                pending = len(self._buffer)
+                if self._buffer.endswith(self.authDelimiter[:1]):
+                    pending -= 1
+                if pending > self.MAX_AUTH_LENGTH:
                     return self.authMessageLengthExceeded(self._buffer)
 
     def fileDescriptorReceived(self, fd):
